@@ -8,9 +8,14 @@ package sx
 import (
 	"fmt"
 	"go/token"
+	"os"
 
 	"golang.org/x/tools/go/ssa"
 )
+
+// YieldEverywhere restores a scheduling choice after every spawn and unlock
+// (for cross-checking the reduced set of scheduling points).
+var YieldEverywhere = os.Getenv("GOSYM_YIELD_EVERYWHERE") != ""
 
 type vclock []int
 
@@ -133,7 +138,15 @@ func (i *interpreter) spawn(instr *ssa.Go, fn value, args []value) {
 		t.started = true
 		call(i, nil, pos, fn, args)
 	}()
-	i.yield("go")
+	// No scheduling choice here: the child is runnable from now on and is
+	// first chosen at a later scheduling point of the running thread (its next
+	// lock acquisition, wait or exit).  Interleavings that differ only in
+	// where the non-synchronising code of two threads overlaps are
+	// equivalent as long as that code is race-free, which the monitor checks
+	// through vector clocks irrespective of the order actually run.
+	if YieldEverywhere {
+		i.yield("go")
+	}
 }
 
 func (i *interpreter) enabled() []*thread {
@@ -182,6 +195,9 @@ func (i *interpreter) yield(what string) {
 	curEnabled := en[0] == i.cur
 	if curEnabled && (len(en) == 1 || s.preemptions >= i.run.cfg.MaxPreempt) {
 		next = i.cur
+		// recorded although forced: the native replay follows the schedule
+		// record by record (harness/sym/sched.go)
+		i.run.inputs = append(i.run.inputs, InputRec{Name: "sched:" + what, Kind: "sched", N: 1, Vals: []uint64{uint64(next.id)}})
 	} else {
 		k := i.choice(len(en))
 		i.run.inputs = append(i.run.inputs, InputRec{Name: "sched:" + what, Kind: "sched", N: len(en), Vals: []uint64{uint64(en[k].id)}})
@@ -404,7 +420,11 @@ func ext۰Mutex۰Unlock(fr *frame, args []value) value {
 	l.holder = nil
 	l.vc = i.cur.vc.copyOf()
 	i.cur.vc[i.cur.id]++
-	i.yield("unlock")
+	// the releasing thread's next scheduling point (its next acquisition,
+	// wait or exit) is where another thread may take over
+	if YieldEverywhere {
+		i.yield("unlock")
+	}
 	return nil
 }
 
